@@ -17,7 +17,19 @@ impl Roots {
         let root = verif_root();
         let mut curated = read_lines(&format!("{}/roots/curated.sfen", root));
         let hand = curated.len();
-        curated.extend(read_lines(&format!("{}/roots/synth.sfen", root)));
+        // behind the hand-made roots: the synthesised ones with the colour-flipped twins of the hand-made ones spread evenly among them
+        let synth = read_lines(&format!("{}/roots/synth.sfen", root));
+        let flipped = read_lines(&format!("{}/roots/curated_flipped.sfen", root));
+        let every = if flipped.is_empty() { usize::MAX } else { (synth.len() / flipped.len()).max(1) };
+        let mut fi = 0;
+        for (i, t) in synth.into_iter().enumerate() {
+            curated.push(t);
+            if i % every == 0 && fi < flipped.len() {
+                curated.push(flipped[fi].clone());
+                fi += 1;
+            }
+        }
+        curated.extend(flipped.into_iter().skip(fi));
         Roots { corpus: read_lines(&format!("{}/roots/valid.sfens", root)), curated, hand }
     }
 }
